@@ -168,8 +168,8 @@ def monStep (ws : List String) : String :=
             let temps := m.mem.filterMap fun (_, c) => match c with | .vec _ b => if b ≥ 16 then some b else none | _ => none
             let maxTemp := temps.foldl max 0
             let anyInd := d.args.any fun p => p.any (·.isIndirect)
-            if !bad.isEmpty then s!"BAD arg {bad.head!} not at its ABI location with its value"
-            else if !(css ≥ ass && lso ≥ css) then s!"BAD frame call area css={css} does not cover ass={ass} / locals lso={lso}"
+            if !(css ≥ ass && lso ≥ css) then s!"BAD frame call area css={css} does not cover ass={ass} / locals lso={lso}"
+            else if !bad.isEmpty then s!"BAD arg {bad.head!} not at its ABI location with its value"
             else if anyInd && csa < maxTemp then s!"BAD frame call stack alignment {csa} < temporary {maxTemp}"
             else if l.flags &&& 1 != 0 && !localOk m lso then "BAD local overwritten before the call"
             else "OK"
